@@ -39,7 +39,28 @@ impl log::Log for StderrLogger {
     fn flush(&self) {}
 }
 
+extern "C" {
+    fn mallopt(param: i32, value: i32) -> i32;
+}
+
+/// Every simulated run opens a database, which allocates (and at the end frees) several megabytes;
+/// with glibc's defaults that memory goes back to the kernel and is page-faulted in again by the
+/// next run (measured: 2 900 minor faults and 8 ms of system time per C15 evaluation, 80 % of the
+/// wall time). Keep freed memory in the process instead. Performance only; no effect on what a run
+/// computes.
+fn tune_allocator() {
+    const M_TRIM_THRESHOLD: i32 = -1;
+    const M_TOP_PAD: i32 = -2;
+    const M_MMAP_THRESHOLD: i32 = -3;
+    unsafe {
+        mallopt(M_MMAP_THRESHOLD, 32 << 20);
+        mallopt(M_TRIM_THRESHOLD, i32::MAX);
+        mallopt(M_TOP_PAD, 64 << 20);
+    }
+}
+
 fn main() {
+    tune_allocator();
     if let Ok(l) = std::env::var("RAINSIM_LOG") {
         static LOGGER: StderrLogger = StderrLogger;
         let _ = log::set_logger(&LOGGER);
